@@ -189,7 +189,7 @@ theorem ReachC.writeGeneric (cfg : Cfg) {m0 m : M} (t r : Str) (h : ReachC m0 m)
     ReachC m0 (writeGeneric cfg m t r) := by
   unfold Machine.writeGeneric
   split
-  · exact h
+  · exact h.upd rfl rfl rfl rfl rfl rfl
   · exact (h.direct _ hb).upd rfl rfl rfl rfl rfl rfl
 
 theorem ReachC.handleHeaderLine (cfg : Cfg) {m0 m : M} (c : Bool) (h : ReachC m0 m) (hb : m.buf = []) :
